@@ -558,7 +558,7 @@ func c08FormDigest(c *engine.Ctx, kinds []drv.Kind) {
 	}
 	var cases []fc
 	for _, k := range kinds {
-		for _, m := range []string{"correct", "wrong", "not-base64", "short15"} {
+		for _, m := range []string{"correct", "wrong", "not-base64", "short15", "correct-but-body-short-of-content-length"} {
 			for _, integ := range []bool{true, false} {
 				for _, st := range []string{"absent", "existing"} {
 					cases = append(cases, fc{k, m, integ, st})
@@ -593,7 +593,14 @@ func c08FormDigest(c *engine.Ctx, kinds []drv.Kind) {
 			field = base64.StdEncoding.EncodeToString(sum[:15])
 		}
 		fb, ct := formBody("dir/f", body, map[string]string{"Content-MD5": field})
-		r := w.Do(drv.Req{Method: "POST", Path: "/aaa", Header: drv.H("Content-Type", ct), Body: fb})
+		freq := drv.Req{Method: "POST", Path: "/aaa", Header: drv.H("Content-Type", ct), Body: fb}
+		if cs.md5 == "correct-but-body-short-of-content-length" {
+			// the complete form in a request body that ends 10 bytes before its Content-Length
+			fr := drv.NewFrag(append(append([]byte{}, fb...), make([]byte, 10)...), nil, 0, false)
+			fr.FailAt, fr.Err = len(fb), io.ErrUnexpectedEOF // what net/http delivers for a short body
+			freq.Body, freq.BodyReader, freq.DeclLen = nil, fr, ptr64(int64(len(fb)+10))
+		}
+		r := w.Do(freq)
 		c.Add(1, 1, 1, 1)
 		hist := []string{fmt.Sprintf("%s form upload Content-MD5=%s integrity=%v start=%s", cs.kind, cs.md5, cs.integ, cs.start)}
 		report := func(field, msg string) {
@@ -603,7 +610,7 @@ func c08FormDigest(c *engine.Ctx, kinds []drv.Kind) {
 			report("panic@"+drv.PanicFrame(r.Panic), firstLine(r.Panic))
 			return
 		}
-		mustReject := cs.integ && cs.md5 != "correct"
+		mustReject := (cs.integ && cs.md5 != "correct") || cs.md5 == "correct-but-body-short-of-content-length"
 		if mustReject {
 			if r.Status < 400 {
 				report("accepted", "accepted with "+r.Short()+" although the digest does not match")
